@@ -31,6 +31,13 @@ pub const ENTRIES: [&str; 5] = ["program", "instruction", "expression", "memref"
 /// a crash is attributed to the known nesting-depth finding only for inputs nested deeper than this
 pub const NEST_THRESHOLD: usize = 1000;
 pub const NEST_FINDING: &str = "parser-nesting-depth-stack-overflow";
+/// debug assertion of the `lexical` crate on `<digits>._<digits>` with 20 or more mantissa digits
+pub const SEP_FINDING: &str = "lexical-debug-assertion-separator-after-point";
+
+/// the shape of the known finding: a panic with lexical's digit-separator assertion on a text that has `._`
+fn is_sep_finding(text: &str, msg: &str) -> bool {
+    msg.contains("format.digit_separator()") && text.contains("._")
+}
 
 /// "ok" | "err" | "panic: <message>" for one entry point
 fn run_entry(entry: &str, text: &str) -> String {
@@ -59,7 +66,12 @@ pub fn run_all(text: &str) -> Vec<(&'static str, String)> {
 fn record_panics(o: &mut Outcome, text: &str, res: &[(&'static str, String)]) {
     for (e, r) in res {
         if r.starts_with("panic") {
-            o.violate(Violation::new("panic", json!("ok or err"), json!(r)).note(format!("{e}::from_str({text:?})")));
+            let mut v = Violation::new("panic", json!("ok or err"), json!(r))
+                .note(format!("{e}::from_str({:?})", text.chars().take(300).collect::<String>()));
+            if is_sep_finding(text, r) {
+                v = v.finding(SEP_FINDING);
+            }
+            o.violate(v);
         }
     }
 }
@@ -503,7 +515,11 @@ fn replay_text(ctx: &Ctx, text: &str, probe: bool) -> Outcome {
             Some(res) => {
                 for (e, r) in res {
                     if r.starts_with("panic") {
-                        o.violate(Violation::new("panic", json!("ok or err"), json!(r)).note(format!("{e}::from_str, nesting depth {depth}")));
+                        let mut v = Violation::new("panic", json!("ok or err"), json!(r)).note(format!("{e}::from_str, nesting depth {depth}"));
+                        if is_sep_finding(text, &r) {
+                            v = v.finding(SEP_FINDING);
+                        }
+                        o.violate(v);
                     }
                 }
             }
@@ -580,7 +596,7 @@ const KITCHEN: &[&str] = &[
 const NASTY: &[&str] = &[
     "\"", "\\", "(", ")", "[", "]", ":", ",", ";", "#", "@", "%", "!", "-", "+", "*", "/", "^", "_", ".", "e", "i", "0", "9", "\n", "\r\n", "\t",
     "    ", " ", "\u{0}", "é", "λ", "💥", "\u{feff}", "0x", "1e", "NONBLOCKING", "AS", "mut", "18446744073709551616", "9223372036854775808",
-    "-9223372036854775808", "1e400", "pi", "sin(", "DEFCAL", "MEASURE", "PULSE", "OFFSET", "SHARING",
+    "-9223372036854775808", "1e400", "pi", "sin(", "._", "_", "1._00000000000000000001", "0.12345678901234567890123", "1_000.000_1e-0_3", "DEFCAL", "MEASURE", "PULSE", "OFFSET", "SHARING",
 ];
 
 fn load_corpus() -> Vec<(String, String)> {
@@ -742,7 +758,11 @@ pub fn drive(ctx: &Ctx) -> Summary {
             util::emit(&mut texts, &json!({"text": text}));
         }
         let res_json: Value = Value::Object(res.iter().map(|(e, r)| (e.to_string(), json!(if r.starts_with("panic") { "panic" } else { r.as_str() }))).collect());
+        // a panic of the known `._` shape is reported (tagged) through the summary; its history is not logged, because a
+        // rejection by trace validation cannot carry a finding id
+        let known_panic = res.iter().any(|(_, r)| r.starts_with("panic") && is_sep_finding(&text, r));
         match tokenize(&text) {
+            Some(_) if known_panic => o.count("known_finding_not_logged"),
             Some(toks) if toks.len() <= max_tokens => {
                 o.count("token_streams_for_tlc");
                 util::emit(&mut out, &json!({"ev": "reset"}));
